@@ -260,12 +260,12 @@ open Glom Glom.Mut
 
 /-! ### properties of the reference tail construction -/
 
-/-- `buildTail` only appends cells and writes to the cells it appended; the object it returns is
-    the first new cell; for a wildcard-free tail it makes one factory call per segment -/
+/-- `buildTail` only appends cells and writes to the cells it appended; for a wildcard-free tail it
+    makes one factory call per segment -/
 theorem buildTail_spec (env : MEnv) (kind : String) (v : Val) :
     ∀ (rem : List Step) (h h' : Heap) (c : Val) (hid : Bool) (n : Nat),
     buildTail env kind v rem h = some (h', c, hid, n) →
-    Pres h h' ∧ h.length < h'.length ∧ c = .ref h.length ∧ n ≤ rem.length ∧
+    Pres h h' ∧ h.length ≤ h'.length ∧ n ≤ rem.length ∧
       (hasStar rem = false → n = rem.length) := by
   intro rem
   induction rem with
@@ -284,20 +284,33 @@ theorem buildTail_spec (env : MEnv) (kind : String) (v : Val) :
           injection hb with h1 hb; injection hb with h2 hb; injection hb with h3 h4
           subst h1; subst h2; subst h3; subst h4
           have hfr := refAssignOp_frame hr
-          refine ⟨frameAt_pres hfr (Nat.le_refl _) (Pres.append _ _), ?_, rfl, by simp, fun _ => by simp⟩
+          refine ⟨frameAt_pres hfr (Nat.le_refl _) (Pres.append _ _), ?_, by simp, fun _ => by simp⟩
           rw [hfr.1]; simp
         · contradiction
     | cons s' rest' =>
       simp only [buildTail] at hb
       split at hb
-      · contradiction
+      · -- a factory that returns a scalar: only a wildcard goes through
+        split at hb
+        · split at hb
+          · rename_i hx
+            injection hb with hb
+            injection hb with h1 hb; injection hb with h2 hb; injection hb with h3 h4
+            subst h1; subst h2; subst h3; subst h4
+            refine ⟨Pres.refl _, Nat.le_refl _, by simp, ?_⟩
+            intro hns
+            have := (hasStar_cons hns).1
+            simp at hx
+            exact absurd hx this
+          · contradiction
+        · contradiction
       · rename_i o _
         split at hb
         · rename_i hx
           injection hb with hb
           injection hb with h1 hb; injection hb with h2 hb; injection hb with h3 h4
           subst h1; subst h2; subst h3; subst h4
-          refine ⟨Pres.append _ _, by simp, rfl, by simp, ?_⟩
+          refine ⟨Pres.append _ _, by simp, by simp, ?_⟩
           intro hns
           have := (hasStar_cons hns).1
           simp at hx
@@ -306,7 +319,7 @@ theorem buildTail_spec (env : MEnv) (kind : String) (v : Val) :
           · split at hb
             · contradiction
             · rename_i h1 inner hid' n' hbt
-              obtain ⟨hp1, hl1, hc1, hn1, hn1'⟩ := ih _ _ _ _ _ hbt
+              obtain ⟨hp1, hl1, hn1, hn1'⟩ := ih _ _ _ _ _ hbt
               split at hb
               · rename_i w hr
                 injection hb with hb
@@ -314,7 +327,7 @@ theorem buildTail_spec (env : MEnv) (kind : String) (v : Val) :
                 subst e1; subst e2; subst e3; subst e4
                 have hfr := refAssignOp_frame hr
                 have hp01 : Pres h h1 := Pres.trans (Pres.append h [o]) hp1 (by simp)
-                refine ⟨frameAt_pres hfr (Nat.le_refl _) hp01, ?_, rfl, ?_, ?_⟩
+                refine ⟨frameAt_pres hfr (Nat.le_refl _) hp01, ?_, ?_, ?_⟩
                 · rw [hfr.1]; simp at hl1; omega
                 · simp at hn1 ⊢; omega
                 · intro hns
